@@ -472,6 +472,27 @@ theorem executed_msgs_are_proposed {ext : Ext} {fuel : Nat} {w0 : World} (hr : R
   rw [hp] at hp'; cases hp'
   exact ⟨p, hp, by rw [hout, hm]⟩
 
+/-- **General re-entrancy** (covers indirect cycles 1 → 2 → 1, group updates and hooks in between): once a proposal is
+stored Executed, whatever is dispatched afterwards adds no further `executed id` event to the ghost log — a nested
+Execute of it anywhere fails and with it the whole dispatch; a successful dispatch contains none. -/
+theorem dispatch_no_second_execution {ext : Ext} {fuel : Nat} {w w' : World} {blk : Block} {outs : List Out} {id : Nat}
+    (hi : Inv w.flex) (hx : isExec w.flex.core id = true) (h : dispatch ext fuel w blk outs = .ok w') :
+    w'.log.count (.executed id) = w.log.count (.executed id) ∧ isExec w'.flex.core id = true := by
+  have := dispatch_inv ext
+    (fun v => Inv v.flex ∧ isExec v.flex.core id = true ∧ v.log.count (.executed id) = w.log.count (.executed id)) blk
+    (fun v snd funds em s' out ⟨hi, hx, hc⟩ he => by
+      obtain ⟨h1, h2⟩ := handler_isExec hi he id
+      refine ⟨execute_inv hi he, by rw [h1, hx]; rfl, ?_⟩
+      have hne : eventOf v.flex snd em ≠ .executed id := by
+        intro e
+        have := h2 ((eventOf_executed _ _ _ _).mp e)
+        rw [hx] at this; cases this
+      simp only [List.count_append, List.count_cons, List.count_nil]
+      simp [hne, hc])
+    (fun v snd m g' outs ⟨hi, hx, hc⟩ _ => ⟨hi, hx, by simp [List.count_append, hc]⟩)
+    (fun v b hq => hq) (fun v t hq => hq) fuel w outs w' ⟨hi, hx, rfl⟩ h
+  exact ⟨this.2.2, this.2.1⟩
+
 /-! ## the observed status only moves forward — over time, and over operations and time -/
 
 /-- On histories whose blocks never go back, a proposal stored Open and not yet expired at the block of
